@@ -180,6 +180,7 @@ fn run_tape(part: &str, tape: &[u8], cx: &mut Cx) -> Res {
     match part {
         "related-secrets" => check_related(&mut t, cx),
         "forward" => {
+            crate::props::history::prior_ops(&mut t, cx, true);
             let h = gen_hide(&mut t);
             check_forward(&h, &mut t, cx)
         }
